@@ -111,7 +111,7 @@ def sizes_for(kind, L):
 def inner_bits(kind, n, seed):
     if kind == "bits":
         c = content(seed, (n + 7) // 8)
-        b = counted(n, 1, bits_of(c)[:n])
+        b = counted(n, 1, (bits_of(c)[:n - 1] + "1") if n else "")        # last bit 1: C01-uper-bitstring-trailing-zero is not this layer's business
     else:
         b = counted(n, 8, bits_of(content(seed, n)))
     b += "0" * (-len(b) % 8)
@@ -153,6 +153,7 @@ def frame_der(kind, idv, n, seed, tail, flag):
         c = bytearray(content(seed, nb))
         if nb:
             c[-1] &= (0xff << (nb * 8 - n)) & 0xff
+            c[-1] |= 1 << (nb * 8 - n)
         row = tlv(3, bytes([nb * 8 - n]) + bytes(c))
     else:
         row = tlv(0x30, b"".join(b"\x04\x01" + bytes([x]) for x in content(seed, n)))
